@@ -105,6 +105,36 @@ CHECKS["C13"] = dict(
     technique="Lean 4 proof: state-machine invariant + per-operation refinement lemmas + induction over histories; differential histories on the real class",
     ref="§5 C13")
 
+CHECKS["C11"] = dict(
+    text="Lean: the input scopes as a state machine (get_input, pop on an empty stack, the ? template, scope push/pop of the lambda and "
+         "function templates) and top_stream / cyclic_stream: for ALL input lists and ALL histories of explicit reads, implicit reads at "
+         "any depth and scope entries/exits, the k-th value delivered from the program's inputs is input k mod n (0 without inputs); "
+         "inner_stream: inside a scope implicit reads cycle over that call's arguments and explicit reads do not disturb them. Tie: the "
+         "same histories on the real ctx / pop / get_input / ? template (exhaustive to length 4/6) and compiled to programs end to end.",
+    note=COMMON_NOTE + "inner_stream is stated for a scope until the next entry/exit; nesting is covered by top_stream and by the correspondence. stdin is /dev/null (EOF).",
+    technique="Lean 4 proof by induction over operation histories; differential histories on the real helpers; end-to-end programs",
+    ref="§5 C11")
+CHECKS["C15"] = dict(
+    text="Lean: digits/alphabet round trips for every base >= 2 and every duplicate-free alphabet (digits_roundtrip, alphabet_roundtrip, "
+         "toDigits_fromDigits), the digit loop of the to-base element under the contract n < b^(e+1) (to_base_elem_roundtrip), and the "
+         "composed theorems number_compress_roundtrip / string_compress_roundtrip: the text the compression element produces lexes to ONE "
+         "compressed token (kernel-checked alphabet facts: the delimiter is not in the alphabet, no duplicates), parses to one statement and "
+         "the transpiler model pushes exactly the original value. Tie: every codec function vs the model; compress -> run program -> compare, "
+         "incl. dictionary compression with its length bound; the floating-point contract is evaluated on the real code for every case.",
+    note=COMMON_NOTE + "T6: the exponent of the to-base loop comes from math.log; the theorem assumes the contract, the check measures it. "
+         "Partial: dictionary compression (the DP of optimal_compress) is covered by the oracle and correspondence only.",
+    technique="Lean 4 proof by strong induction on n / induction on digit lists, kernel evaluation of alphabet facts; differential correspondence; exec round-trip oracle",
+    ref="§5 C15")
+CHECKS["C07"] = dict(
+    text="Lean: a number is a rational with its Python representation (int / Integer / Rational, no float constructor); theorems *_exact "
+         "for the six operators with the zero guards of / and floor division, results_normal (integer-valued iff integer representation), "
+         "div_mul_cancel / mul_div_cancel / divmod_identity with equality, expr_tree_exact for trees of any depth. Tie: value AND "
+         "representation class of the real operators vs the model on exhaustive small pairs in every representation and random large ones; "
+         "oracle against fractions.Fraction by type and exact equality, and expression trees run as programs.",
+    note=COMMON_NOTE + "T5: sympy's Integer/Rational arithmetic and Mod are taken as exact and validated per case (this is how F27, an off-by-one in sympy's own floor division, was found).",
+    technique="Lean 4 proof over core Rat (field and floor lemmas); differential correspondence incl. representation; Fraction oracle",
+    ref="§5 C07")
+
 NOT_YET = {}
 
 def main():
